@@ -46,6 +46,39 @@ func runC15(c *Ctx) {
 	r.Rule("O4", "sorted result rebuilt from every element (no filter in the adding loop)", 2)
 	r.Rule("O5", "sort and the comparison operators parse numbers the same way", 1)
 
+	r.Rule("O6", "Less decides only through the comparator: it compares no node text itself", 1)
+	for _, fn := range c.moduleFuncs() {
+		if fn.Name() != "Less" || fn.Signature.Recv() == nil {
+			continue
+		}
+		key := funcKey(fn) + "/raw-text"
+		bad := ""
+		eachInstr(fn, func(ins ssa.Instruction) {
+			bo, ok := ins.(*ssa.BinOp)
+			if !ok {
+				return
+			}
+			isText := func(v ssa.Value) bool {
+				u, ok := v.(*ssa.UnOp)
+				if !ok {
+					return false
+				}
+				fa, ok := u.X.(*ssa.FieldAddr)
+				return ok && structNameOfPtr(fa.X.Type()) == "CandidateNode" && fieldName(fa) == "Value"
+			}
+			if isText(bo.X) && isText(bo.Y) {
+				bad = c.P.pos(bo.Pos())
+			}
+		})
+		if bad == "" {
+			r.Discharge("O6", key, c.P.pos(fn.Pos()), "no comparison of two nodes' Value text inside Less; the order comes from compare()")
+		} else {
+			r.Finding("O6", key, bad, "Less compares the Value text of the two nodes itself: scalars with the same spelling but different tags (\"null\" and null, \"true\" and true, \"1\" and 1) are then ordered without their type, which breaks `null < booleans < numbers < strings` and transitivity")
+		}
+	}
+
+	ruleS6(c, "O7")
+
 	roots := comparatorRoots(c)
 	if len(roots) < 4 {
 		r.Fatal("anchor missing: expected Less method(s) and COMPARE/MIN/MAX handlers as comparator roots, found %d", len(roots))
